@@ -384,6 +384,8 @@ def gen(rnd, *, core=False, res_choices=(60, 60, 30, 15), subslot=True, alap=Non
                 t["end"] = m["start"] + timedelta(days=rnd.randrange(0, 7), minutes=rnd.randrange(0, 24 * 60, res))
         elif pins and not m["alap"] and rnd.random() < 0.2:
             t["start"] = m["start"] + timedelta(days=rnd.randrange(0, 7), minutes=rnd.randrange(0, 24 * 60, res))
+            if rnd.random() < 0.15:
+                t["start"] = m["start"]        # pinned exactly at the project start (also written ${projectstart})
         tasks.append(t)
     m["tasks"] = tasks
     # containers that ended up childless become leaves (milestones): the parser treats them so
